@@ -217,6 +217,9 @@ func read_placeholder(rdr *tokenReader, placeholderValues *HashMap, ns EnvType) 
 	if tokenStruct == nil {
 		return nil, lisperror.NewLispError(errors.New("read_placeholder underflow"), nil)
 	}
+	if placeholderValues == nil {
+		return nil, nil
+	}
 	return placeholderValues.Val[tokenStruct.Value], nil
 }
 
